@@ -84,7 +84,46 @@ struct Tap<Item, SinkItem> {
     key: u64,
     polled: bool,
     closing: bool,
+    /// one-shot fault armed by the step ArmServer: the next operation of that kind reports an error (later ones would succeed)
+    arm: Arc<Mutex<Option<String>>>,
+    /// a fault was reported: whoever owns the transport must not use it any more
+    failed: bool,
+    uses_after_fail: u32,
     inner: DynT<Item, SinkItem>,
+}
+impl<Item, SinkItem> Tap<Item, SinkItem> {
+    fn used_after_fail(&mut self, op: &str) {
+        self.uses_after_fail += 1;
+        if self.uses_after_fail == 1 {
+            emit("SysUseAfterFail", json!({"side": self.side, "k": self.conn, "op": op}));
+        }
+        if self.uses_after_fail == 5000 {
+            // an owner that never returns to the executor: end its task (the runtime catches the panic) instead of hanging the harness
+            emit("SysSpin", json!({"side": self.side, "k": self.conn, "op": op}));
+            panic!("vh: transport used 5000 times after it reported a failure");
+        }
+    }
+    fn fault(&mut self, op: &str) -> Option<io::Error> {
+        if self.failed {
+            self.used_after_fail(op);
+        }
+        let hit = {
+            let mut a = self.arm.lock().unwrap();
+            if a.as_deref() == Some(op) {
+                *a = None;
+                true
+            } else {
+                false
+            }
+        };
+        if hit {
+            self.failed = true;
+            emit("SysFault", json!({"side": self.side, "k": self.conn, "op": op}));
+            Some(io::Error::new(io::ErrorKind::ConnectionReset, format!("injected {} fault", op)))
+        } else {
+            None
+        }
+    }
 }
 
 trait Describe {
@@ -116,6 +155,9 @@ impl<Item: Describe, SinkItem> Stream for Tap<Item, SinkItem> {
             this.polled = true;
             emit("SysFirstPoll", json!({"side": this.side, "k": this.conn}));
         }
+        if let Some(e) = this.fault("next") {
+            return Poll::Ready(Some(Err(e)));
+        }
         let r = this.inner.as_mut().poll_next(cx);
         match &r {
             Poll::Ready(Some(Ok(it))) => {
@@ -134,10 +176,17 @@ impl<Item: Describe, SinkItem> Stream for Tap<Item, SinkItem> {
 impl<Item, SinkItem: Describe> Sink<SinkItem> for Tap<Item, SinkItem> {
     type Error = io::Error;
     fn poll_ready(self: Pin<&mut Self>, cx: &mut Context<'_>) -> Poll<Result<(), io::Error>> {
-        self.get_mut().inner.as_mut().poll_ready(cx)
+        let this = self.get_mut();
+        if let Some(e) = this.fault("ready") {
+            return Poll::Ready(Err(e));
+        }
+        this.inner.as_mut().poll_ready(cx)
     }
     fn start_send(self: Pin<&mut Self>, item: SinkItem) -> Result<(), io::Error> {
         let this = self.get_mut();
+        if this.failed {
+            this.used_after_fail("send");
+        }
         let mut v = item.describe();
         v["side"] = json!(this.side);
         v["k"] = json!(this.conn);
@@ -147,7 +196,11 @@ impl<Item, SinkItem: Describe> Sink<SinkItem> for Tap<Item, SinkItem> {
         r
     }
     fn poll_flush(self: Pin<&mut Self>, cx: &mut Context<'_>) -> Poll<Result<(), io::Error>> {
-        self.get_mut().inner.as_mut().poll_flush(cx)
+        let this = self.get_mut();
+        if let Some(e) = this.fault("flush") {
+            return Poll::Ready(Err(e));
+        }
+        this.inner.as_mut().poll_flush(cx)
     }
     fn poll_close(self: Pin<&mut Self>, cx: &mut Context<'_>) -> Poll<Result<(), io::Error>> {
         let this = self.get_mut();
@@ -246,6 +299,7 @@ struct World {
     resolved: Arc<Mutex<BTreeSet<u64>>>,
     abandoned: BTreeSet<u64>,
     call_conn: BTreeMap<u64, u64>,
+    sarms: BTreeMap<u64, Arc<Mutex<Option<String>>>>,
     cfg: Value,
     otel: bool,
 }
@@ -327,6 +381,7 @@ impl World {
             resolved: Arc::new(Mutex::new(BTreeSet::new())),
             abandoned: BTreeSet::new(),
             call_conn: BTreeMap::new(),
+            sarms: BTreeMap::new(),
             cfg: cfg.clone(),
             otel: cfg["sub"] == "otel",
         }
@@ -385,8 +440,10 @@ impl World {
                             (Box::pin(ErrMap(ct)), Box::pin(ErrMap(st)))
                         }
                     };
-                let stap: STap = Tap { side: "s", conn: k, key, polled: false, closing: false, inner: st };
-                let ctap: CTap = Tap { side: "c", conn: k, key, polled: false, closing: false, inner: ct };
+                let sarm = Arc::new(Mutex::new(None));
+                self.sarms.insert(k, sarm.clone());
+                let stap: STap = Tap { side: "s", conn: k, key, polled: false, closing: false, arm: sarm, failed: false, uses_after_fail: 0, inner: st };
+                let ctap: CTap = Tap { side: "c", conn: k, key, polled: false, closing: false, arm: Arc::new(Mutex::new(None)), failed: false, uses_after_fail: 0, inner: ct };
                 emit("SysConnect", json!({"k": k, "key": key}));
                 let mut ccfg = client::Config::default();
                 ccfg.max_in_flight_requests = self.cfg["maxInFlight"].as_u64().unwrap_or(1000) as usize;
@@ -481,6 +538,15 @@ impl World {
                     // abort from inside the runtime: the aborted task joins the local run queue in order, so a batch of
                     // abandoned calls is dropped before the dispatch (woken by the first of them) runs again
                     self.clock.rt.block_on(async { h.abort() });
+                }
+            }
+            "ArmServer" => {
+                // the server's transport of connection k reports an error at its next operation of kind `op` (and only that one)
+                let k = s["k"].as_u64().unwrap();
+                let op = s["op"].as_str().unwrap_or("next").to_string();
+                if let Some(a) = self.sarms.get(&k) {
+                    emit("SysArmServer", json!({"k": k, "op": op}));
+                    *a.lock().unwrap() = Some(op);
                 }
             }
             "DropClient" => {
